@@ -210,6 +210,68 @@ R.contract(
 )
 
 
+# ------------------------------------------------------------------------------------------------- get_parameters_value: explicit values are merged with generated ones for the OTHER parameters
+R.contract(HY + "apply_hooks", args={"operation": Opq("Any"), "context": Opq("Any"), "hooks": Opq("Any"), "strategy": Opq("Any"), "location": Opq("Any")},
+           returns=lambda it, env: env["strategy"], trusted=True, note="C19 contracts: hooks of all scopes applied; identity when none is registered")
+
+
+def _gps_stub(it, env):
+    from pyvc.values import VObj
+
+    exclude = env.get("exclude")
+    it.ghost["excluded_names"] = None if exclude is None else list(it.iterate_all(exclude))
+    it.ghost["asked_location"] = env["location"]
+    return VObj(it.resolve_class("spec:FillInStrategy2"), {"exclude": it.ghost["excluded_names"]})
+
+
+def _draw_fill_in(it, a, k=None):
+    """E2 draw(strategy): a value of the strategy. By get_parameters_strategy's verified contract (above) a fill-in never holds an excluded name; `None` when the
+    location has nothing (left) to generate."""
+    strat = a[0]
+    excluded = strat.fields["exclude"] or []
+    kind = it.path.choose([("none", True), ("empty", True), ("one", True)], "drawn")
+    if kind == "none":
+        new = None
+    elif kind == "empty":
+        new = {}
+    else:
+        name = Str.make(it, it.path.fresh("generated_name"))
+        for e in excluded:
+            it.path.assume(__import__("z3").Not(__import__("pyvc.ops", fromlist=["eq"]).eq(name, e)))
+        new = {name: fresh_opaque(it, "Value")}
+    it.ghost["drawn"] = new
+    return new
+
+
+# at call sites: get_parameters_strategy by its contract (verified above) - the strategy remembers which names it was told to leave out
+_gps_contract = R.contracts[HY + "get_parameters_strategy"]
+_gps_contract.returns = _gps_stub
+_gps_contract.call_ensures = {}
+R.contract("spec:draw_fill_in", args={"strategy": Opq("Any")}, returns=lambda it, env: _draw_fill_in(it, [env["strategy"]]), trusted=True,
+           note="E2 Hypothesis draw(strategy): a value of the fill-in strategy; never holds an excluded name (get_parameters_strategy's contract)")
+R.contract(
+    HY + "get_parameters_value",
+    prop="C17",
+    args={"value": OneOf(Global("schemathesis.core:NOT_SET"), KeyedDict(Str, Opq("Value"), sizes=(0, 1, 2))), "location": Choice("query", "header"),
+          "draw": Callable_(contract="spec:draw_fill_in", name="draw"), "operation": Opq("Any"), "context": Opq("Any"), "hooks": NoneT,
+          "strategy_factory": Opq("Any"), "generation_config": Opq("Any")},
+    ghost={"excluded_names": None, "asked_location": None, "drawn": None},
+    raises=[],
+    ensures={
+        # sent unchanged (C17) / the user's value wins (C14): every explicit value is in the result, untouched - whatever its value (0, "", False are values)
+        "every_explicit_value_survives": "implies(is_instance(value, 'dict') and length(value) > 0, all(k in result and result[k] is value[k] for k in value))",
+        # ... because the fill-in is asked NOT to generate those names again, for this location
+        "the_fill_in_excludes_exactly_the_explicit_names": "ghost('asked_location') == location and "
+                                                           "((length(ghost('excluded_names')) == length(value) and all(k in ghost('excluded_names') for k in value)) if (is_instance(value, 'dict') and length(value) > 0) else (ghost('excluded_names') is None or length(ghost('excluded_names')) == 0))",
+        "the_other_parameters_are_filled_in": "implies(ghost('drawn') is not None and is_instance(value, 'dict') and length(value) > 0, all(k in result and result[k] is ghost('drawn')[k] for k in ghost('drawn')))",
+        "nothing_given_means_everything_generated": "implies(not is_instance(value, 'dict') or length(value) == 0, result is ghost('drawn'))",
+        "the_callers_mapping_is_not_modified": "implies(is_instance(value, 'dict'), value == old(dict(value)))",
+    },
+    bounded_note="up to 2 explicit values, up to 1 generated value",
+    replayable=False,
+)
+
+
 # ------------------------------------------------------------------------------------------------- examples inside object schemas (request bodies): extract_from_schema
 V2 = Opq("ExampleValue")
 PropSchema = lambda: DictOf(optional={"example": V2, "examples": ListOf(V2, [0, 1, 2], widen=False), "type": Const("string")})
